@@ -91,6 +91,15 @@ pub const SITE_PRED: u8 = 2;
 pub const SITE_EQ: u8 = 3;
 pub const SITE_HASH: u8 = 4;
 
+/// Microseconds that every `V::clone` spins before it returns (0 = off). The concurrent cache runs
+/// the caller's `clone` while it holds a shard lock of the hash map (insert) or a reference into it
+/// (get): a slow clone widens exactly the windows in which no switch point may be placed.
+static CLONE_SPIN_US: AtomicU64 = AtomicU64::new(0);
+
+pub fn set_clone_spin_us(us: u64) {
+    CLONE_SPIN_US.store(us, Ordering::Relaxed);
+}
+
 thread_local! {
     static FAULT: std::cell::Cell<Option<(u8, u32)>> = const { std::cell::Cell::new(None) };
 }
@@ -198,6 +207,13 @@ impl TV {
 impl Clone for TV {
     fn clone(&self) -> Self {
         fault_point(SITE_CLONE);
+        let spin = CLONE_SPIN_US.load(Ordering::Relaxed);
+        if spin > 0 {
+            let t0 = std::time::Instant::now();
+            while (t0.elapsed().as_micros() as u64) < spin {
+                std::hint::spin_loop();
+            }
+        }
         let obj = NEXT_OBJ.fetch_add(1, Ordering::Relaxed);
         VALS_CLONED.fetch_add(1, Ordering::Relaxed);
         LIVE_VALS.fetch_add(1, Ordering::SeqCst);
